@@ -306,10 +306,39 @@ def run_case(case):
                     viol.append({"mech": f"C11/resume-raises/{route}", "detail": f"{tag}: {type(RR.exc).__name__} at {loc}: {str(RR.exc)[:200]}"})
                     continue
                 d = recorded.same_runs(R, RR, tol=tol)
+                cat = {"beta": "schedule", "stored": "populations", "log_evidence": "evidence", "final": "final"}
                 if d:
-                    cat = {"beta": "schedule", "stored": "populations", "log_evidence": "evidence", "final": "final"}
                     kinds = "+".join(sorted({cat.get(x.split(" ")[0], "history") for x in d}))
                     viol.append({"mech": f"C11/resumed-run-differs/{kinds}", "detail": f"{tag}: {d[:4]}"})
+                    continue
+                if route == "bytes":
+                    continue
+                # ---- the continuation is interrupted as well, and the user continues once more from the very same source (the same
+                #      dictionary object, the same path, the same file through the constructor): a checkpoint source is an input, using
+                #      it must not use it up
+                n2 = probe2.n_like_calls
+                if n2 < 2:
+                    continue
+                k2 = max(1, int(0.6 * n2))
+                for attempt in ("interrupted", "again"):
+                    t3 = Target.from_desc(cfg["target"])
+                    probe3 = Probe(t3, fault_like_at=k2, fault_exc=InjectedInterrupt if k % 2 else InjectedFault) if attempt == "interrupted" else Probe(t3)
+                    if route == "resume_from_file":
+                        a3 = Aspire.resume_from_file(path, log_likelihood=probe3.log_likelihood, log_prior=probe3.log_prior)
+                    else:
+                        _, a3, probe3 = recorded.build(cfg, probe=probe3)
+                    R3 = recorded.record(cfg, aspire=a3, probe=probe3, rng=np.random.default_rng(555 + k), with_callback=False, resume_from=src)
+                    if attempt == "interrupted":
+                        continue
+                    counters["second_continuations_from_the_same_source"] += 1
+                    tag3 = f"{tag} [continuation interrupted at its likelihood call {k2}/{n2}, then continued again from the same {route} source]"
+                    if R3.exc is not None:
+                        viol.append({"mech": f"C11/second-resume-from-same-source-raises/{route}", "detail": f"{tag3}: {type(R3.exc).__name__}: {str(R3.exc)[:200]}"})
+                        continue
+                    d3 = recorded.same_runs(R, R3, tol=tol)
+                    if d3:
+                        kinds = "+".join(sorted({cat.get(x.split(" ")[0], "history") for x in d3}))
+                        viol.append({"mech": f"C11/second-resume-from-same-source-differs/{route}/{kinds}", "detail": f"{tag3}: {d3[:4]}"})
         finally:
             rm_tmp(path)
     seen = {}
